@@ -1,4 +1,4 @@
-CONSTANT Lens = {1, 2, 7, 8, 13, 14, 16, 23}
+CONSTANT Lens = {1, 2, 7, 8, 13, 14, 16, 23, 182, 183}
 SPECIFICATION Spec
 INVARIANT Emit
 CHECK_DEADLOCK FALSE
